@@ -169,7 +169,9 @@ static void check_order_insensitive(vrng *r, int k)
 static const char *key_name(vrng *r, int nkeys, char *buf)
 {
     int i = (int)vrnd_n(r, (uint32_t)nkeys);
-    if (i % 7 == 3) snprintf(buf, 80, "k%d.some.longer[3].attribute.name.%d", i, i * 31);
+    /* siblings under one long prefix: names that differ only after their 64th (and 100th) character */
+    if (i % 5 == 2) snprintf(buf, 160, "xcm.a_rather_long_container_name_with_many_words.and_another_level_of_it_%s.leaf_%d", i % 10 == 2 ? "that_goes_on_and_on_for_a_while_longer" : "x", i);
+    else if (i % 7 == 3) snprintf(buf, 80, "k%d.some.longer[3].attribute.name.%d", i, i * 31);
     else if (i % 11 == 5) snprintf(buf, 80, "%c", 'a' + i % 26);
     else snprintf(buf, 80, "xcm.key_%d", i);
     return buf;
@@ -200,7 +202,7 @@ static void map_case(vrng *r, int nops)
     int nkeys = vrnd_p(r, 30) ? 200 : vrnd_p(r, 50) ? 3 : 12;
     for (int k = 0; k < NPOOL; k++) { pool[k] = xcm_attr_map_create(); memset(&model[k], 0, sizeof model[k]); }
     oplog_len = 0; oplog[0] = 0;
-    char nb[96];
+    char nb[160];
     for (int op = 0; op < nops; op++) {
         int k = (int)vrnd_n(r, NPOOL);
         unsigned what = vrnd_n(r, 100);
